@@ -59,6 +59,11 @@ CLAIMED = {
             "rank lists, non-contiguous and lazily conjugated core views, requires_grad cores), all four dtypes.",
             "Trusted: torch.equal, storage pointers, the checker's dense contraction. CPU only.",
             "DESIGN.md 4/C19"),
+    "C13": ("property-based testing (Hypothesis): generated x and positive y = c + z*z, all division forms/options/seeds, multiply-back (inverse) oracle on dense arrays",
+            "Generated search over form x order x modes x ranks x eps x preconditioner x starting tensor x kick x seed with "
+            "the inverse relation q*y = x evaluated densely (5*tol bound) and exact scalar division.",
+            "Trusted: checker's dense contraction; y assembled with the library's + and * but evaluated from its actual cores.",
+            "DESIGN.md 4/C13"),
     "C12": ("property-based testing (Hypothesis): generated well-conditioned TT systems (SPD / Laplacian / diagonally dominant) x solver options x seeds vs. dense residual bound",
             "Generated search over system class x order x modes x ranks x eps x preconditioner x local solver path x "
             "initial guess x internal seed; oracle = dense residual ||Ax-b|| <= 5 eps ||b|| computed by the checker.",
